@@ -463,7 +463,24 @@ def t_object(I, args, kw, node):
     return SObj(object, {}, I.ctx.fresh_name("object"))
 
 
-TYPES = {int: t_int, float: t_float, bool: t_bool, bytes: t_bytes, list: t_list, tuple: t_tuple,
+def t_array(I, args, kw, node):
+    """array.array(typecode, initializer): modelled as a mutable int list (typecode range checks not modelled
+    beyond the element range of the initializer)"""
+    if len(args) < 2:
+        return SList(z3.K(z3.IntSort(), z3.IntVal(0)), 0, None)
+    init = args[1]
+    r = t_list(I, [init], {}, node)
+    if isinstance(r, list):
+        arr = z3.K(z3.IntSort(), z3.IntVal(0))
+        for i, x in enumerate(r):
+            arr = z3.Store(arr, i, L.to_z3(L.num(I.numeric(x))))
+        return SList(arr, len(r), None)
+    return r
+
+
+import array as _array
+
+TYPES = {_array.array: t_array, int: t_int, float: t_float, bool: t_bool, bytes: t_bytes, list: t_list, tuple: t_tuple,
          set: t_set, dict: t_dict, str: t_str, range: b_range, enumerate: b_enumerate, zip: b_zip,
          reversed: b_reversed, object: t_object}
 
